@@ -45,6 +45,20 @@ def build(d: Any) -> Any:
         m = getattr(jelly, d["cls"])()
         _fill_msg(m, d)
         return m
+    if t == "gterm":
+        from pyjelly.integrations.generic import generic_sink as gs
+        k = d["k"]
+        if k == "iri":
+            return gs.IRI(d["v"])
+        if k == "bnode":
+            return gs.BlankNode(d["v"])
+        if k == "lit":
+            return gs.Literal(d["lex"], d["lang"], d["dt"])
+        if k == "quoted":
+            return gs.Triple(*[build(x) for x in d["items"]])
+        if k == "default":
+            return gs.DefaultGraph
+        return object()
     if t == "userlist":
         c = _cls(d["cls"])
         o = object.__new__(c)
@@ -101,6 +115,18 @@ def describe(v: Any, depth: int = 0) -> Any:
         return {"t": "dict", "items": [[describe(k, depth + 1), describe(x, depth + 1)] for k, x in v.items()]}
     if hasattr(v, "DESCRIPTOR") and hasattr(v, "ListFields"):
         return describe_msg(v, depth)
+    if mod == "pyjelly.integrations.generic.generic_sink":
+        n = type(v).__name__
+        if n == "IRI":
+            return {"t": "gterm", "k": "iri", "v": v._iri}
+        if n == "BlankNode":
+            return {"t": "gterm", "k": "bnode", "v": v._identifier}
+        if n == "Literal":
+            return {"t": "gterm", "k": "lit", "lex": v._lex, "lang": v._langtag, "dt": v._datatype}
+        if n == "_DefaultGraph":
+            return {"t": "gterm", "k": "default"}
+        if n == "Triple":
+            return {"t": "gterm", "k": "quoted", "items": [describe(x, depth + 1) for x in v]}
     if mod.startswith("pyjelly"):
         from collections import UserList
         if isinstance(v, UserList):
